@@ -1,20 +1,33 @@
 """C04 — one origin convention: sample n//2 is zero for every grid, pad, crop, metric.
 
-correspondence: model (Lean driver `Drivers/C04.lean`) vs prysm on the same integer inputs, everything
-compared as integers; the property's own predicates (marker lands on N//2, exact zero at n//2, ...) are
-evaluated on the real outputs of every case as well.
+Two layers per case:
+  * the property's own predicate, evaluated on the REAL prysm output (`PRED[item](case)` -> None | detail).  The same
+    function is used by correspondence, by the search and by replay, so every reported input replays.
+  * correspondence with the Lean model (`Drivers/C04.lean`): offsets, widths, grid samples, frequency numerators and
+    centroids computed by the model for the same integers / exact rationals are compared with what prysm produced.
 """
 import itertools
-import numpy as np
 from fractions import Fraction
+
+import numpy as np
+
 from harness import common as C
 
-RULE = ('exhaustive (n,N) pairs up to the tier bound (both growing and shrinking, every parity pair), each '
-        'executed on a 2-D array whose other axis uses a different pair; pad modes constant(0,1.5,nan)/edge/'
-        'reflect/wrap; grids, frequency axes, slices and centroids for every length up to the bound; a case is '
-        'non-trivial unless n == N or n == 1; distinct = distinct (item, input) tuples')
-ASSUMPTIONS = ['scipy.ndimage.center_of_mass returns the first moment / total (trusted)',
-               'np.pad / slicing semantics (trusted)']
+RULE = ('exhaustive (n,N) pairs up to the tier bound (pad n->N and crop N->n, every parity pair), each executed on a 2-D array '
+        'whose other axis uses a different pair; pad modes constant(0,1.5,nan)/edge/reflect/wrap on the full sweep and '
+        'symmetric/linear_ramp/mean/maximum/minimum/median, integer / list / tuple out_shape, int64 / float32 / complex128 '
+        'data, transposed and strided inputs on a smaller sweep; every mixed grow/shrink request up to 6x6 (must raise); '
+        'grids (tuple and scalar shape, grid=True/False, dx>0, dx<0, diameter=), frequency axes (shift=True/False, keyword and '
+        'positional), RichData.x / .y / slices() and centroids (spatial and pixels) for every length / shape up to the bound; '
+        'Wavefront.pad2d / crop with Q, out_shape, value, mode, inplace True/False; a case is non-trivial unless n == N or '
+        'n == 1; distinct = distinct (item, input) tuples')
+ASSUMPTIONS = ['scipy.ndimage.center_of_mass returns the first moment / total (trusted; compared on every point source)',
+               'np.pad / slicing / np.meshgrid / np.roll semantics (trusted; compared on every case)',
+               'np.argmin(abs(v)) returns an index of a minimal |v[k]| (specification `IsArgminAbs` of the slices theorem)']
+
+DXS = [1.0, 0.37, 2.5, -0.75]
+MODES6 = [('constant', 0), ('constant', 1.5), ('constant', float('nan')), ('edge', 0), ('reflect', 0), ('wrap', 0)]
+MODES_EXTRA = ['symmetric', 'linear_ramp', 'mean', 'maximum', 'minimum', 'median']
 
 
 def _impl():
@@ -27,391 +40,1065 @@ def _marked(shape):
     return (np.arange(1, shape[0] * shape[1] + 1, dtype=float)).reshape(shape)
 
 
+def _arr(shape, dtype='float64', layout='C'):
+    m, n = shape
+    if layout == 'T':
+        a = _marked((n, m)).T                      # Fortran-ordered view
+    elif layout == 'strided':
+        a = _marked((2 * m, 2 * n))[::2, ::2]      # non-contiguous view
+    else:
+        a = _marked((m, n))
+    if dtype == 'complex128':
+        a = a * (1 + 0.5j)
+    elif dtype != 'float64':
+        a = a.astype(dtype)
+    return a
+
+
+def _val(s):
+    s = str(s)
+    return int(s) if s.lstrip('-').isdigit() else float(s)
+
+
+def _same(a, b):
+    return a.shape == b.shape and bool(np.array_equal(a, b, equal_nan=a.dtype.kind in 'fc'))
+
+
+def _pure(fn, *args, **kw):
+    """call twice on the same argument objects: (first result, problem | None)"""
+    snap = [a.copy() if isinstance(a, np.ndarray) else a for a in args]
+    r1 = fn(*args, **kw)
+    keep = r1.copy() if isinstance(r1, np.ndarray) else r1
+    for a, s in zip(args, snap):
+        if isinstance(a, np.ndarray) and not _same(a, s):
+            return keep, 'implementation modified the caller-owned input array in place'
+    r2 = fn(*args, **kw)
+    if isinstance(keep, np.ndarray):
+        if not _same(np.asarray(r2), keep):
+            return keep, 'second evaluation with the same arguments differs from the first (history dependence)'
+    elif isinstance(keep, tuple):
+        if len(r2) != len(keep) or any(not (x == y or (x != x and y != y)) for x, y in zip(keep, r2)):
+            return keep, 'second evaluation with the same arguments differs from the first (history dependence)'
+    return keep, None
+
+
+def _shape_arg(out, form):
+    if form == 'int':
+        return int(out[0])
+    return list(out) if form == 'list' else tuple(out)
+
+
+# =================================================================================================
+# property predicates on the real code (item -> fn(case) -> None when it holds, else a detail string)
+# =================================================================================================
+PRED = {}
+
+
+def pred(name):
+    def deco(fn):
+        PRED[name] = fn
+        return fn
+    return deco
+
+
+def _pad_args(c):
+    a = _arr(c['in'], c.get('dtype', 'float64'), c.get('layout', 'C'))
+    kw = {'out_shape': _shape_arg(c['out'], c.get('outform', 'tuple')), 'mode': c['mode']}
+    if c.get('value') is not None:
+        kw['value'] = _val(c['value'])
+    if c.get('Q') is not None:
+        kw['Q'] = c['Q']                     # out_shape overrides Q, whatever Q is (Q = 1 included)
+    return a, kw
+
+
+@pred('pad')
+def _p_pad(c, want_out=False):
+    ft = _impl()[0]
+    a, kw = _pad_args(c)
+    if c.get('call') == 'positional':
+        r = _pure(lambda arr: ft.pad2d(arr, kw.get('Q', 2), kw.get('value', 0), kw['mode'], kw['out_shape']), a)
+    else:
+        r = _pure(ft.pad2d, a, **kw)
+    out, problem = r
+    if want_out:
+        return out, problem
+    return problem or _p_pad_from(c, out)
+
+
+@pred('pad_mixed')
+def _p_pad_mixed(c):
+    """a request that shrinks an axis is outside pad2d's domain: reference behaviour is ValueError, never an array"""
+    ft = _impl()[0]
+    a = _arr(c['in'])
+    try:
+        out = ft.pad2d(a, out_shape=tuple(c['out']), mode=c['mode'])
+    except ValueError:
+        return None
+    except Exception as ex:
+        return f'raised {type(ex).__name__} (ValueError expected): {ex}'
+    return f'returned an array of shape {out.shape} for a request that shrinks an axis'
+
+
+@pred('crop')
+def _p_crop(c, want_out=False):
+    ft = _impl()[0]
+    a = _arr(c['in'], c.get('dtype', 'float64'), c.get('layout', 'C'))
+    out, problem = _pure(ft.crop_center, a, _shape_arg(c['out'], c.get('outform', 'tuple')))
+    if want_out:
+        return out, problem
+    if problem:
+        return problem
+    (m, n), (M, N) = c['in'], c['out']
+    if out.shape != (M, N):
+        return f'cropped shape {out.shape}, requested {(M, N)}'
+    if out[M // 2, N // 2] != a[m // 2, n // 2]:
+        return f'origin sample {a[m // 2, n // 2]} of the input is not at the origin {(M // 2, N // 2)} of the cropped array (found {out[M // 2, N // 2]})'
+    l0, l1 = m // 2 - M // 2, n // 2 - N // 2
+    if not np.array_equal(out, a[l0:l0 + M, l1:l1 + N]):
+        return 'the cropped array is not the block around the origin of the input'
+    return None
+
+
+@pred('crop_grow')
+def _p_crop_grow(c):
+    """a growing request is outside crop_center's domain: it must not come back looking like a served request"""
+    ft = _impl()[0]
+    a = _arr(c['in'])
+    try:
+        out = ft.crop_center(a, tuple(c['out']))
+    except Exception:
+        return None
+    if out.shape == tuple(c['out']):
+        return f'returned the requested shape {out.shape} although an axis grows'
+    return None
+
+
+@pred('crop_pad')
+def _p_crop_pad(c):
+    ft = _impl()[0]
+    b = _arr(c['in'], c.get('dtype', 'float64'))
+    kw = {'out_shape': tuple(c['mid']), 'mode': c['mode']}
+    if c.get('value') is not None:
+        kw['value'] = _val(c['value'])
+    rt = ft.crop_center(ft.pad2d(b, **kw), tuple(c['in']))
+    return None if _same(rt, b) else 'crop_center(pad2d(x)) != x'
+
+
+@pred('padlen')
+def _p_padlen(c):
+    ft = _impl()[0]
+    n, q = c['n'], Fraction(c['Q'])
+    a = np.ones((n, (n % 5) + 1))
+    want = (-((-n * q.numerator) // q.denominator), -((-((n % 5) + 1) * q.numerator) // q.denominator))
+    if c.get('call') == 'default' and q == 2:
+        out = ft.pad2d(a)
+    elif c.get('call') == 'positional':
+        out = ft.pad2d(a, float(q))
+    else:
+        out = ft.pad2d(a, Q=float(q))
+    if out.shape != want:
+        return f'default padded shape {out.shape}, ceil(n*Q) = {want}'
+    if out[want[0] // 2, want[1] // 2] != 1 or out.sum() != a.size:
+        return 'origin sample not on the origin of the Q-padded array'
+    return None
+
+
+@pred('fftrange')
+def _p_fftrange(c):
+    ft = _impl()[0]
+    n = c['n']
+    dt = {'None': None, 'float32': np.float32, 'int32': np.int32, 'precision': 'precision'}[c.get('dtype', 'None')]
+    if dt == 'precision':
+        from prysm.conf import config
+        dt = config.precision
+    r = ft.fftrange(n, dtype=dt) if dt is not None else ft.fftrange(n)
+    if len(r) != n or r[n // 2] != 0 or not np.array_equal(r, np.arange(n) - n // 2):
+        return f'fftrange({n}) = {r[:4]}..: no exact zero at n//2 / not unit-spaced'
+    return None
+
+
+@pred('make_xy_grid')
+def _p_grid(c, want_out=False):
+    co = _impl()[1]
+    m, n = c['shape']
+    kw = {}
+    if 'dx' in c:
+        kw['dx'] = c['dx']
+    if 'diameter' in c:
+        kw['diameter'] = c['diameter']
+    if 'grid' in c:
+        kw['grid'] = c['grid']
+    shape = m if c.get('scalar') else (m, n)
+    x, y = co.make_xy_grid(shape, **kw)
+    if want_out:
+        return x, y
+    dx = c['diameter'] / max(m, n) if c.get('diameter') else c.get('dx', 0)
+    ex, ey = (np.arange(n) - n // 2) * dx, (np.arange(m) - m // 2) * dx
+    if c.get('grid', True):
+        if x.shape != (m, n) or y.shape != (m, n):
+            return f'grid shapes {x.shape}, {y.shape} for shape {(m, n)}'
+        if (x[:, n // 2] != 0).any() or (y[m // 2, :] != 0).any():
+            return 'no exact zero on column n//2 of x / row m//2 of y'
+        x1, y1 = x[0], y[:, 0]
+        if not (x == x1[None, :]).all() or not (y == y1[:, None]).all():
+            return 'x varies along rows or y along columns'
+    else:
+        if x.shape != (n,) or y.shape != (m,):
+            return f'vector shapes {x.shape}, {y.shape} for shape {(m, n)}'
+        if x[n // 2] != 0 or y[m // 2] != 0:
+            return 'no exact zero at n//2 of x / m//2 of y'
+        x1, y1 = x, y
+    tol = 4 * np.finfo(x1.dtype).eps
+    if not np.allclose(x1, ex, rtol=tol, atol=0) or not np.allclose(y1, ey, rtol=tol, atol=0):
+        return 'grid is not (index - n//2) * dx in (y, x) = (row, column) order'
+    return None
+
+
+@pred('forward_ft_unit')
+def _p_ftunit(c, want_out=False):
+    ft = _impl()[0]
+    n, dx, shift = c['n'], c['dx'], c.get('shift', True)
+    call = c.get('call', 'positional')
+    if call == 'keyword':
+        u = ft.forward_ft_unit(dx=dx, samples=n, shift=shift)
+    elif call == 'default':
+        u = ft.forward_ft_unit(dx, n)
+    else:
+        u = ft.forward_ft_unit(dx, n, shift)
+    if want_out:
+        return u
+    if len(u) != n:
+        return f'{len(u)} frequencies for {n} samples'
+    k = np.arange(n) - n // 2
+    if not shift:
+        k = np.fft.ifftshift(k)
+    zero = n // 2 if shift else 0
+    if u[zero] != 0:
+        return f'zero frequency not at index {zero}'
+    if not np.allclose(u, k / (n * dx), rtol=64 * np.finfo(u.dtype).eps, atol=0):
+        return 'frequency axis is not (index - n//2)/(n dx)' + ('' if shift else ' in un-shifted order')
+    return None
+
+
+def _point(c):
+    m, n = c['shape']
+    d = np.zeros((m, n), dtype=c.get('dtype', 'float64'))
+    d[tuple(c['pos'])] = 2
+    if c.get('layout') == 'T':
+        d = np.asfortranarray(d)
+    return d
+
+
+@pred('centroid')
+def _p_centroid(c, want_out=False):
+    psf = _impl()[2]
+    d = _point(c)
+    m, n = c['shape']
+    p, q = c['pos']
+    unit = c.get('unit', 'spatial')
+    if unit == 'spatial':
+        fn = (lambda arr: psf.centroid(arr, c['dx'])) if c.get('call') == 'positional' else \
+            (lambda arr: psf.centroid(arr, dx=c['dx'], unit='spatial'))
+    else:
+        fn = lambda arr: psf.centroid(arr, unit=unit)   # noqa: E731
+    r, problem = _pure(fn, d)
+    if want_out:
+        return r
+    if problem:
+        return problem
+    if len(r) != 2:
+        return f'centroid returned {len(r)} values'
+    cy, cx = (float(v) for v in r)
+    if unit == 'spatial':
+        ey, ex = (p - m // 2) * c['dx'], (q - n // 2) * c['dx']
+        if abs(cy - ey) > 1e-9 * max(1, abs(ey)) or abs(cx - ex) > 1e-9 * max(1, abs(ex)):
+            return (f'point source {p - m // 2, q - n // 2} samples from the origin reported at '
+                    f'{cy / c["dx"], cx / c["dx"]} samples')
+    else:
+        if abs(cy - p) > 1e-9 or abs(cx - q) > 1e-9:
+            return f'point source at pixel {p, q} reported at pixel {cy, cx}'
+    return None
+
+
+def _rich(c):
+    rd = _impl()[4]
+    m, n = c['shape']
+    a = _marked((m, n))
+    r = rd.RichData(a, c['dx'], 1.0)
+    return a, r
+
+
+@pred('richdata_xy')
+def _p_rich_xy(c):
+    """RichData.x / .y read directly (either first), also after .data was replaced"""
+    m, n = c['shape']
+    a, r = _rich(c)
+    hist = c.get('history', 'fresh')
+    if hist == 'replace_same_after_read':
+        _ = r.x
+        r.data = a[::-1].copy()
+    elif hist == 'replace_other_before_read':
+        m, n = c['shape2']
+        r.data = _marked((m, n))
+    elif hist == 'replace_other_after_read':
+        _ = r.x if c.get('first', 'x') == 'x' else r.y
+        m, n = c['shape2']
+        r.data = _marked((m, n))
+    x, y = (r.x, r.y) if c.get('first', 'x') == 'x' else tuple(reversed((r.y, r.x)))
+    dx = c['dx']
+    if x.shape != (m, n) or y.shape != (m, n):
+        return f'x, y have shapes {x.shape}, {y.shape} beside data of shape {(m, n)}'
+    ex, ey = (np.arange(n) - n // 2) * dx, (np.arange(m) - m // 2) * dx
+    if (x[:, n // 2] != 0).any() or (y[m // 2, :] != 0).any():
+        return 'no exact zero on column n//2 of x / row m//2 of y'
+    tol = 4 * np.finfo(x.dtype).eps
+    if not np.allclose(x, ex[None, :] + 0 * ey[:, None], rtol=tol, atol=0) or \
+            not np.allclose(y, ey[:, None] + 0 * ex[None, :], rtol=tol, atol=0):
+        return 'RichData.x / .y are not (index - n//2) * dx in (row, column) = (y, x) order'
+    return None
+
+
+@pred('slices')
+def _p_slices(c):
+    m, n = c['shape']
+    a, r = _rich(c)
+    hist = c.get('history', 'fresh')
+    if hist == 'replace_other_after_read':
+        _ = r.x
+        m, n = c['shape2']
+        a = _marked((m, n))
+        r.data = a
+    if c.get('user_origin') is not None:
+        # user-assigned coordinates: the slices follow the zero of the coordinates the user supplied
+        r0, c0 = c['user_origin']
+        r.x, r.y = np.meshgrid((np.arange(n) - c0) * abs(c['dx']), (np.arange(m) - r0) * abs(c['dx']))
+        s = r.slices(twosided=True)
+        if not (np.array_equal(s.x[1], a[r0, :]) and np.array_equal(s.y[1], a[:, c0])):
+            return f'slices do not pass through the zero {(r0, c0)} of the user-assigned coordinates'
+        return None
+    s = r.slices() if c.get('twosided', True) is None else r.slices(twosided=c.get('twosided', True))
+    (ux, sx), (uy, sy) = s.x, s.y
+    if c.get('twosided', True) in (True, None):
+        if not (np.array_equal(sx, a[m // 2, :]) and np.array_equal(sy, a[:, n // 2])):
+            return 'two-sided slices are not row m//2 / column n//2 of the data'
+        if len(ux) != n or len(uy) != m or ux[n // 2] != 0 or uy[m // 2] != 0:
+            return 'slice coordinates have no zero beside the origin sample'
+    else:
+        if not (np.array_equal(sx, a[m // 2, n // 2:]) and np.array_equal(sy, a[m // 2:, n // 2])):
+            return 'one-sided slices do not start at the origin sample'
+        if len(ux) != len(sx) or len(uy) != len(sy) or ux[0] != 0 or uy[0] != 0:
+            return 'one-sided slice coordinates do not start at zero'
+    return None
+
+
+def _wf(c, pr):
+    a = _arr(c['in']).astype(complex)
+    return a, pr.Wavefront(a, 0.55, 0.25, c.get('space', 'pupil'))
+
+
+@pred('wavefront_pad')
+def _p_wf_pad(c):
+    ft, _, _, pr, _ = _impl()
+    a, wf = _wf(c, pr)
+    kw, ref = {}, {}
+    if c.get('out') is not None:
+        kw['out_shape'] = ref['out_shape'] = _shape_arg(c['out'], c.get('outform', 'tuple'))
+    if c.get('value') is not None:
+        kw['value'] = ref['value'] = _val(c['value'])
+    if c.get('mode') is not None:
+        kw['mode'] = ref['mode'] = c['mode']
+    if c.get('inplace') is not None:
+        kw['inplace'] = c['inplace']
+    Q = c.get('Q', 2)
+    if c.get('call') == 'positional':
+        w2 = wf.pad2d(Q, kw.get('value', 0), kw.get('mode', 'constant'), kw.get('out_shape'), kw.get('inplace', True))
+    else:
+        w2 = wf.pad2d(Q, **kw)
+    want = ft.pad2d(a, Q=Q, **ref)
+    inplace = c.get('inplace', True) in (True, None)
+    if not isinstance(w2, pr.Wavefront):
+        return f'returned {type(w2).__name__}'
+    if (w2 is wf) != inplace:
+        return 'inplace flag not honoured (identity of the returned wavefront)'
+    if not _same(np.asarray(w2.data), want):
+        return 'Wavefront.pad2d data differs from fttools.pad2d(data, Q, value, mode, out_shape)'
+    if not inplace and not _same(np.asarray(wf.data), a):
+        return 'inplace=False modified the original wavefront'
+    if (w2.dx, w2.wavelength, w2.space) != (0.25, 0.55, c.get('space', 'pupil')):
+        return f'dx / wavelength / space of the result are {(w2.dx, w2.wavelength, w2.space)}'
+    M, N = want.shape
+    if c.get('out') is not None and (M, N) != ((c['out'][0],) * 2 if c.get('outform') == 'int' else tuple(c['out'])):
+        return f'padded wavefront has shape {(M, N)}, requested out_shape {c["out"]}'
+    if w2.data[M // 2, N // 2] != a[a.shape[0] // 2, a.shape[1] // 2]:
+        return 'origin sample not on the origin of the padded wavefront'
+    return None
+
+
+@pred('wavefront_crop')
+def _p_wf_crop(c):
+    ft, _, _, pr, _ = _impl()
+    a, wf = _wf(c, pr)
+    arg = _shape_arg(c['out'], c.get('outform', 'tuple'))
+    w2 = wf.crop(arg) if c.get('inplace') is None else wf.crop(arg, inplace=c['inplace'])
+    inplace = c.get('inplace', True) in (True, None)
+    want = ft.crop_center(a, arg)
+    if not isinstance(w2, pr.Wavefront) or (w2 is wf) != inplace:
+        return 'inplace flag not honoured / wrong return type'
+    if not _same(np.asarray(w2.data), want):
+        return 'Wavefront.crop data differs from fttools.crop_center(data, out_shape)'
+    if (w2.dx, w2.wavelength, w2.space) != (0.25, 0.55, c.get('space', 'pupil')):
+        return f'dx / wavelength / space of the result are {(w2.dx, w2.wavelength, w2.space)}'
+    M, N = want.shape
+    if w2.data[M // 2, N // 2] != a[a.shape[0] // 2, a.shape[1] // 2]:
+        return 'origin sample not on the origin of the cropped wavefront'
+    return None
+
+
+@pred('focus_origin')
+def _p_focus(c):
+    pr = _impl()[3]
+    m, n = c['shape']
+    f = pr.focus(np.ones((m, n), dtype=complex), 1)
+    pk = tuple(int(v) for v in np.unravel_index(np.argmax(abs(f)), f.shape))
+    if pk != (m // 2, n // 2):
+        return f'flat field focuses onto {pk}, the origin sample is {(m // 2, n // 2)}'
+    rest = abs(f).copy()
+    rest[pk] = 0
+    if rest.max() > 1e-9 * abs(f[pk]):        # scale-free: whatever the normalisation convention
+        return 'flat field does not focus onto a single sample'
+    d = np.zeros((m, n), dtype=complex)
+    d[m // 2, n // 2] = 1
+    for nm, g in (('focus', pr.focus(d, 1)), ('unfocus', pr.unfocus(d, 1))):
+        g00 = g[0, 0]
+        if abs(g00) == 0 or abs(g - g00).max() > 1e-9 * abs(g00) or abs(g00.imag) > 1e-9 * abs(g00):
+            return f'{nm} of a point source on the origin sample is not a flat, real field'
+    return None
+
+
+@pred('grid_fresh')
+def _p_fresh(c):
+    ft, co = _impl()[0], _impl()[1]
+    from prysm.conf import config
+    n = c['n']
+    for dt in (None, config.precision):
+        v = ft.fftrange(n, dtype=dt)
+        v -= 3                      # what the matrix-DFT / chirp-Z basis builders do for a shift
+    ft.mdft.dft2(np.ones((n, (n % 4) + 1)), 1.0, (n, (n % 4) + 1), shift=(1.5, 2.0))
+    ft.czt.czt2(np.ones((n, (n % 4) + 1)), 1.0, (n, (n % 4) + 1), shift=(1.5, 2.0))
+    x, y = co.make_xy_grid((n, n), dx=0.5)
+    x -= 1.0
+    xv, yv = co.make_xy_grid((n, n), dx=0.5, grid=False)
+    xv += 1.0
+    x2, y2 = co.make_xy_grid((n, n), dx=0.5)
+    xv2, yv2 = co.make_xy_grid((n, n), dx=0.5, grid=False)
+    u = ft.forward_ft_unit(0.5, n)
+    u += 1.0
+    u0 = ft.forward_ft_unit(0.5, n, shift=False)
+    u0 += 1.0
+    u2 = ft.forward_ft_unit(0.5, n)
+    u02 = ft.forward_ft_unit(0.5, n, shift=False)
+    ok = all(ft.fftrange(n, dtype=dt)[n // 2] == 0 for dt in (None, config.precision)) \
+        and x2[0, n // 2] == 0 and y2[n // 2, 0] == 0 and u2[n // 2] == 0 and u02[0] == 0 and xv2[n // 2] == 0 and yv2[n // 2] == 0
+    return None if ok else 'a grid lost its zero at n//2 after an earlier result was modified in place / after a shifted transform'
+
+
+def _symmetric(M, o):
+    m, n = M.shape
+    k0, k1 = min(o[0], m - 1 - o[0]), min(o[1], n - 1 - o[1])
+    A = M[o[0] - k0:o[0] + k0 + 1, o[1] - k1:o[1] + k1 + 1]
+    return np.array_equal(A, A[::-1, ::-1]) if A.dtype == bool else np.allclose(A, A[::-1, ::-1], rtol=1e-12, atol=1e-12)
+
+
+@pred('foreign_origin')
+def _p_foreign(c):
+    """code that computes an array centre with another formula (ceil(n/2) in segmented.py / x/shack_hartmann.py; fftshift on
+    both sides in interferogram.py) must still produce results centred on sample n//2, for odd sizes in particular"""
+    co = _impl()[1]
+    m, n = c['shape']
+    o = (m // 2, n // 2)
+    what = c['what']
+    if what in ('hex', 'keystone', 'shack_hartmann'):
+        x, y = co.make_xy_grid((m, n), dx=4.0 / 30)
+    if what == 'hex':
+        from prysm import segmented, geometry
+        for ang in (0, 90):
+            cha = segmented.CompositeHexagonalAperture(x, y, 1, 1.0, 0.05, ang)
+            for w, mk, cen in zip(cha.windows, cha.local_masks, cha.all_centers):
+                full = geometry.regular_polygon(6, cha.vtov / 2, x, y, center=tuple(cen), rotation=ang)
+                if not np.array_equal(mk, full[w]):
+                    return f'segment mask inside its window is not the polygon of the true coordinates (angle {ang})'
+            full = geometry.regular_polygon(6, cha.vtov / 2, x, y, center=(0, 0), rotation=ang)
+            loc = np.zeros_like(full)
+            loc[cha.windows[0]] = cha.local_masks[0]
+            if not np.array_equal(loc, full):
+                return f'centre segment is clipped by its window (angle {ang})'
+            if not loc[o] or not _symmetric(loc, o):
+                return f'centre segment is not centred on the origin sample {o} (angle {ang})'
+    elif what == 'keystone':
+        from prysm import segmented
+        ck = segmented.CompositeKeystoneAperture(x, y, 1.0, 1, 0.6, 6, 0.05)
+        r = np.hypot(x, y)
+        inner = r <= 0.5
+        if not ck.amp[o] or not np.array_equal(ck.amp & inner, inner) or not _symmetric(ck.amp & inner, o):
+            return 'centre circle of the keystone aperture is not centred on the origin sample'
+    elif what == 'shack_hartmann':
+        from prysm.x import shack_hartmann as sh
+        for k in (1, 3):
+            ph = sh.shack_hartmann(1.0, k, 50., 0.5, x, y, shift=False)
+            if not _symmetric(np.angle(ph), o) or not _symmetric(abs(ph), o):
+                return f'{k}x{k} lenslet phase screen is not centred on the origin sample {o}'
+    elif what == 'psd':
+        from prysm import interferogram as ig
+        ux, uy, p = ig.psd(np.ones((m, n)), 0.5, window=np.ones((m, n)))
+        pk = tuple(int(v) for v in np.unravel_index(np.argmax(p), p.shape))
+        if pk != o or ux[pk] != 0 or uy[pk] != 0:
+            return f'PSD of a constant map peaks at {pk} (frequencies {ux[pk], uy[pk]}), origin sample is {o}'
+    elif what == 'synth':
+        from prysm import interferogram as ig, fttools
+        if m < 2 or n < 2:
+            return None
+        psd = np.zeros((m, n))
+        psd[o] = 1.0
+        st = np.random.get_state()
+        np.random.seed(1)
+        try:
+            _, _, z = ig.synthesize_surface_from_psd(psd, fttools.forward_ft_unit(0.5, n), fttools.forward_ft_unit(0.5, m))
+        finally:
+            np.random.set_state(st)
+        amp = np.sqrt((n - 1) * 0.5 * (m - 1) * 0.5) / 0.25 / (m * n)      # |sqrt(A psd)| / (dx dy) / (m n)
+        if np.ptp(z) > 1e-9 * amp:
+            return 'a PSD with power only on the zero-frequency sample (index n//2) synthesises a non-constant surface'
+    else:
+        raise KeyError(what)
+    return None
+
+
+# ---- inventory of array centres / shift pairings written with another formula elsewhere in prysm ----------------------
+REVIEWED_SITES = {
+    # (file, function, kind): how it is covered
+    ('prysm/segmented.py', '_composite_hexagonal_aperture', 'ceil-half'): "predicate foreign_origin/hex (window centre only; masks use true coordinates)",
+    ('prysm/segmented.py', '_composite_keystone_aperture', 'ceil-half'): "predicate foreign_origin/keystone",
+    ('prysm/x/shack_hartmann.py', 'shack_hartmann', 'ceil-half'): "predicate foreign_origin/shack_hartmann",
+    ('prysm/interferogram.py', 'psd', 'same-shift-both-sides'): "predicate foreign_origin/psd (input-side shift only changes the phase, |.|^2 is taken)",
+    ('prysm/interferogram.py', 'synthesize_surface_from_psd', 'same-shift-both-sides'): "predicate foreign_origin/synth (inner ifftshift is the un-centring; outer one rotates a random surface)",
+}
+
+
+def origin_inventory(repo):
+    """(file, function, kind, text) of every `ceil(<..shape..>/2)` and every fftshift/ifftshift applied on BOTH sides of an
+    FFT with the same direction, anywhere under prysm/ (AST walk; informational, never red by itself)"""
+    import ast
+    import os
+
+    def last(e):
+        return ast.unparse(e).split('.')[-1]
+    sites = set()
+    for root, _, files in os.walk(os.path.join(repo, 'prysm')):
+        for f in files:
+            if not f.endswith('.py'):
+                continue
+            path = os.path.join(root, f)
+            try:
+                mod = ast.parse(open(path).read())
+            except Exception:
+                continue
+            rel = os.path.relpath(path, repo)
+            for fn in [n for n in ast.walk(mod) if isinstance(n, ast.FunctionDef)]:
+                for n in ast.walk(fn):
+                    if not isinstance(n, ast.Call) or not n.args:
+                        continue
+                    a0 = n.args[0]
+                    if last(n.func) == 'ceil' and isinstance(a0, ast.BinOp) and isinstance(a0.op, ast.Div) \
+                            and isinstance(a0.right, ast.Constant) and a0.right.value == 2 and 'shape' in ast.unparse(a0.left):
+                        sites.add((rel, fn.name, 'ceil-half', ast.unparse(n)))
+                    if last(n.func) in ('fftshift', 'ifftshift'):
+                        for c in ast.walk(a0):
+                            if isinstance(c, ast.Call) and last(c.func) in ('fft2', 'ifft2', 'fft', 'ifft', 'fftn', 'ifftn'):
+                                for d in (d for a in c.args for d in ast.walk(a)):
+                                    if isinstance(d, ast.Call) and last(d.func) == last(n.func):
+                                        sites.add((rel, fn.name, 'same-shift-both-sides', ast.unparse(n)[:90]))
+    return sorted(sites)
+
+
+# ---- known finding: stale RichData coordinates after .data was replaced by another shape ------------------------------
+def _stale_witness():
+    C.import_prysm()
+    c = {'shape': [4, 7], 'shape2': [6, 9], 'dx': 0.5, 'history': 'replace_other_after_read'}
+    try:
+        return _p_rich_xy(c) is not None
+    except Exception:
+        return True
+
+
+KNOWN = {'richdata-stale-xy': {'witness': _stale_witness}}
+
+
+def _is_known(item, c):
+    return item in ('richdata_xy', 'slices') and c.get('history') == 'replace_other_after_read' \
+        and list(c.get('shape2', c['shape'])) != list(c['shape'])
+
+
+# =================================================================================================
+# correspondence
+# =================================================================================================
+def _run_pred(ctx, item, case, nontrivial=True, tag=None):
+    """execute the property predicate of `item` on the real code; exceptions count as failures"""
+    ctx.case(item, case, nontrivial=nontrivial, tag=tag)
+    try:
+        detail = PRED[item](case)
+    except Exception as ex:
+        detail = f'raised {type(ex).__name__}: {ex}'
+    if detail is not None:
+        if _is_known(item, case):
+            # exactly the known finding: the same request on a FRESH object of the new shape holds, only the cache is stale
+            fresh = {k: v for k, v in case.items() if k not in ('history', 'shape2')}
+            fresh['shape'] = case['shape2']
+            if _try(item, fresh) is None:
+                ctx.filtered_known['richdata-stale-xy'] += 1
+                return False
+        ctx.pred_fail(item, case, detail)
+        return False
+    return True
+
+
 def correspondence(ctx):
     ft, co, psf, pr, rd = _impl()
     B = ctx.scale(40, 128)
+    S = ctx.scale(10, 20)          # bound of the alternate-form sweeps
     if ctx.widen:
-        B = max(B, 96)
-    lines = []
+        B, S = max(B, 96), max(S, 16)
     pairs = [(n, N) for n in range(1, B + 1) for N in range(n, B + 1)]
-    for (n, N) in pairs:
-        lines.append(f'pad {n} {N}')
-        lines.append(f'crop {N} {n}')
     ns = list(range(1, ctx.scale(130, 600)))
-    for n in ns:
-        lines.append(f'fftrange {n}')
-        lines.append(f'centroidref {n}')
-        lines.append(f'ftunit {n}')
     qs = [Fraction(k, 8) for k in range(8, 41)]
     lens = list(range(1, ctx.scale(24, 64)))
+    smax = ctx.scale(9, 14)
+    shapes = list(itertools.product(range(1, smax + 1), repeat=2))
+
+    def rat(x):
+        f = Fraction(x)
+        return f'{f.numerator}/{f.denominator}'
+    lines = []
+    for (n, N) in pairs:
+        lines += [f'pad {n} {N}', f'crop {N} {n}']
+    for n in ns:
+        lines += [f'fftrange {n}', f'centroidref {n}', f'ftunit {n}', f'ftunit0 {n}']
     for n in lens:
-        for q in qs:
-            lines.append(f'padlen {n} {q.numerator} {q.denominator}')
-    rep = iter(C.lean_driver('C04', lines))
+        lines += [f'padlen {n} {q.numerator} {q.denominator}' for q in qs]
+    grid_pts, cen_pts = [], []
+    for (m, n) in shapes:
+        dx = DXS[(m + n) % len(DXS)]
+        for (i, j) in {(0, 0), (m // 2, n // 2), (m - 1, n - 1), (m // 2, 0), (0, n - 1)}:
+            grid_pts.append((m, n, i, j, dx))
+            lines.append(f'grid {m} {n} {i} {j} {rat(dx)}')
+        if m * n <= ctx.scale(72, 196):
+            for (p, q) in itertools.product(range(m), range(n)):
+                cen_pts.append((m, n, p, q, dx))
+                lines.append(f'centroid {m} {n} {p} {q} {rat(dx)}')
+    lines = list(dict.fromkeys(lines))
+    M = dict(zip(lines, C.lean_driver('C04', lines)))
 
     # ---------------- pad / crop, exhaustive pairs
     other = [(3, 8), (4, 7), (6, 6), (5, 5), (2, 9), (7, 10)]
-    modes = [('constant', 0), ('constant', 1.5), ('constant', float('nan')), ('edge', 0), ('reflect', 0), ('wrap', 0)]
     for idx, (n, N) in enumerate(pairs):
-        mb, ma = map(int, next(rep).split())
-        ml = int(next(rep))
+        mb, ma = map(int, M[f'pad {n} {N}'].split())
+        ml = int(M[f'crop {N} {n}'])
         n2, N2 = other[idx % len(other)]
         mb2, ma2 = N2 // 2 - n2 // 2, (N2 - n2) - (N2 // 2 - n2 // 2)   # second axis: checked by its own pair elsewhere
         for axis in (0, 1):
             shp = (n, n2) if axis == 0 else (n2, n)
             out_shape = (N, N2) if axis == 0 else (N2, N)
-            a = _marked(shp)
-            mode, val = modes[idx % len(modes)] if not ctx.thorough else (None, None)
-            for (mode, val) in ([(mode, val)] if mode else modes):
-                case = {'op': 'pad2d', 'in': list(shp), 'out': list(out_shape), 'mode': mode, 'value': repr(val)}
-                ctx.case('pad', case, nontrivial=(n != N and n > 1), tag=f'{mode}/par{n % 2}{N % 2}')
-                if mode in ('reflect',) and (N - n > 0) and (n < 2 or max(mb, ma) > n - 1 or max(mb2, ma2) > n2 - 1):
-                    continue   # np.pad rejects reflect widths > n-1
-                try:
-                    out = C.pure_call(ctx, 'pad', case, ft.pad2d, a, out_shape=out_shape, mode=mode, value=val)
-                except Exception as ex:   # the model always returns a value here
-                    ctx.disagree('pad', case, f'raised {type(ex).__name__}: {ex}', f'before={mb} after={ma}')
-                    ctx.pred_fail('pad', case, f'pad2d raised {type(ex).__name__}: {ex}')
-                    continue
-                # property predicate on the real output: origin sample lands on the origin
-                o_in = (shp[0] // 2, shp[1] // 2)
-                o_out = (out_shape[0] // 2, out_shape[1] // 2)
-                if out.shape != tuple(out_shape) or out[o_out] != a[o_in]:
-                    ctx.pred_fail('pad', case, f'origin sample {a[o_in]} not at {o_out}; got '
-                                  f'{out[o_out] if out.shape == tuple(out_shape) else out.shape}')
-                # correspondence: where did the block go / what surrounds it
-                w = ((mb, ma), (mb2, ma2)) if axis == 0 else ((mb2, ma2), (mb, ma))
-                if mode == 'constant':
-                    exp = np.full(out_shape, val, dtype=float)
-                    exp[w[0][0]:w[0][0] + shp[0], w[1][0]:w[1][0] + shp[1]] = a
-                else:
-                    exp = np.pad(a, w, mode=mode)
-                if out.shape != exp.shape or not np.array_equal(out, exp, equal_nan=True):
-                    where = np.argwhere(out == a[0, 0])
-                    ctx.disagree('pad', case, f'block at {where[:1].tolist()}', f'widths {w}')
+            w = ((mb, ma), (mb2, ma2)) if axis == 0 else ((mb2, ma2), (mb, ma))
+            for (mode, val) in (MODES6 if ctx.thorough else [MODES6[idx % len(MODES6)]]):
+                case = {'in': list(shp), 'out': list(out_shape), 'mode': mode, 'value': repr(val)}
+                _pad_case(ctx, case, w, nontrivial=(n != N and n > 1), tag=f'{mode}/par{n % 2}{N % 2}')
         # crop N -> n (shrinking), both axes
         for axis in (0, 1):
             shp = (N, N2) if axis == 0 else (N2, N)
             out_shape = (n, n2) if axis == 0 else (n2, n)
-            a = _marked(shp)
-            case = {'op': 'crop_center', 'in': list(shp), 'out': list(out_shape)}
-            ctx.case('crop', case, nontrivial=(n != N), tag=f'par{N % 2}{n % 2}')
-            try:
-                out = C.pure_call(ctx, 'crop', case, ft.crop_center, a, out_shape)
-            except Exception as ex:
-                ctx.disagree('crop', case, f'raised {type(ex).__name__}: {ex}', f'left={ml}')
-                ctx.pred_fail('crop', case, f'crop_center raised {type(ex).__name__}')
-                continue
-            o_in = (shp[0] // 2, shp[1] // 2)
-            o_out = (out_shape[0] // 2, out_shape[1] // 2)
-            if out.shape != tuple(out_shape) or out[o_out] != a[o_in]:
-                ctx.pred_fail('crop', case, f'origin sample {a[o_in]} not at {o_out}')
             l2 = N2 // 2 - n2 // 2
-            lo = (ml, l2) if axis == 0 else (l2, ml)
-            exp = a[lo[0]:lo[0] + out_shape[0], lo[1]:lo[1] + out_shape[1]]
-            if out.shape != exp.shape or not np.array_equal(out, exp):
-                ctx.disagree('crop', case, f'first sample {out.flat[0] if out.size else None}', f'offsets {lo}')
+            case = {'in': list(shp), 'out': list(out_shape)}
+            _crop_case(ctx, case, (ml, l2) if axis == 0 else (l2, ml), nontrivial=(n != N), tag=f'par{N % 2}{n % 2}')
             # crop undoes pad exactly (property predicate), every mode
-            b = _marked(out_shape)
-            for (mode, val) in (modes if ctx.thorough else [modes[idx % len(modes)]]):
-                if mode == 'reflect':
+            for (mode, val) in (MODES6 if ctx.thorough else [MODES6[idx % len(MODES6)]]):
+                cp = {'in': list(out_shape), 'mid': list(shp), 'mode': mode, 'value': repr(val)}
+                if not _np_pad_ok(out_shape, shp, mode):
                     continue
-                try:
-                    rt = ft.crop_center(ft.pad2d(b, out_shape=shp, mode=mode, value=val), out_shape)
-                    ok = np.array_equal(rt, b)
-                except Exception as ex:
-                    ok = False
-                ctx.case('crop_pad', {'in': list(out_shape), 'mid': list(shp), 'mode': mode}, nontrivial=(n != N))
-                if not ok:
-                    ctx.pred_fail('crop_pad', {'in': list(out_shape), 'mid': list(shp), 'mode': mode, 'value': repr(val)},
-                                  'crop_center(pad2d(x)) != x')
+                _run_pred(ctx, 'crop_pad', cp, nontrivial=(n != N))
+
+    # ---------------- pad / crop, alternate argument forms, dtypes, layouts, further modes (smaller sweep)
+    k = 0
+    for (n, N) in [(n, N) for n in range(1, S + 1) for N in range(n, S + 1)]:
+        mb, ma = map(int, M[f'pad {n} {N}'].split())
+        ml = int(M[f'crop {N} {n}'])
+        n2 = [n, max(1, n - 1), max(1, n - 2)][k % 3]          # integer out_shape: both axes get N
+        mbb, maa = N // 2 - n2 // 2, (N - n2) - (N // 2 - n2 // 2)
+        k += 1
+        variants = [
+            {'outform': 'int', 'mode': 'constant', 'value': '0'},
+            {'outform': 'int', 'mode': 'edge', 'value': None},
+            {'outform': 'list', 'mode': 'constant', 'value': '1.5'},
+            {'outform': 'tuple', 'mode': 'constant', 'value': None},
+            {'outform': 'tuple', 'mode': 'constant', 'value': '0', 'Q': 1},
+            {'outform': 'int', 'mode': 'wrap', 'value': None, 'Q': 1.0},
+            {'outform': 'tuple', 'mode': 'constant', 'value': '0', 'call': 'positional'},
+            {'outform': 'tuple', 'mode': 'constant', 'value': '3', 'dtype': 'int64'},
+            {'outform': 'tuple', 'mode': 'constant', 'value': '0', 'dtype': 'int64'},
+            {'outform': 'tuple', 'mode': 'constant', 'value': '1.5', 'dtype': 'complex128'},
+            {'outform': 'tuple', 'mode': 'constant', 'value': '1.5', 'dtype': 'float32'},
+            {'outform': 'tuple', 'mode': 'wrap', 'value': None, 'dtype': 'int64'},
+            {'outform': 'tuple', 'mode': 'constant', 'value': '1.5', 'layout': 'T'},
+            {'outform': 'tuple', 'mode': 'edge', 'value': None, 'layout': 'strided'},
+        ] + [{'outform': 'tuple', 'mode': mo, 'value': None} for mo in MODES_EXTRA]
+        for v in (variants if ctx.thorough else variants[k % 2::2] + variants[:2]):
+            for axis in (0, 1):
+                shp = (n, n2) if axis == 0 else (n2, n)
+                w = ((mb, ma), (mbb, maa)) if axis == 0 else ((mbb, maa), (mb, ma))
+                case = {'in': list(shp), 'out': [N, N], **v}
+                _pad_case(ctx, case, w, nontrivial=(n != N and n > 1), tag=f'alt/{v["outform"]}/{v.get("dtype", "f8")}/{v["mode"]}')
+        for v in ({'outform': 'int'}, {'outform': 'list'}, {'outform': 'tuple', 'dtype': 'int64'}, {'outform': 'tuple', 'layout': 'T'},
+                  {'outform': 'tuple', 'layout': 'strided'}, {'outform': 'int', 'dtype': 'complex128'}):
+            N2 = [N, N + 1, N + 3][k % 3]
+            l2 = N2 // 2 - n // 2
+            for axis in (0, 1):
+                shp = (N, N2) if axis == 0 else (N2, N)
+                case = {'in': list(shp), 'out': [n, n], **v}
+                _crop_case(ctx, case, (ml, l2) if axis == 0 else (l2, ml), nontrivial=(n != N), tag=f'alt/{v["outform"]}')
+
+    # ---------------- requests outside the domain: pad2d asked to shrink an axis, crop_center asked to grow one
+    T = ctx.scale(5, 7)
+    for (n0, n1, N0, N1) in itertools.product(range(1, T + 1), repeat=4):
+        if N0 < n0 or N1 < n1:
+            for mode in ('constant', 'edge'):
+                _run_pred(ctx, 'pad_mixed', {'in': [n0, n1], 'out': [N0, N1], 'mode': mode}, tag=mode)
+        if N0 > n0 or N1 > n1:
+            _run_pred(ctx, 'crop_grow', {'in': [n0, n1], 'out': [N0, N1]})
 
     # ---------------- grids, frequency axes, centroid reference
-    dxs = [1.0, 0.37, 2.5]
     for i, n in enumerate(ns):
-        lo, hi = map(int, next(rep).split())
-        cref = int(next(rep))
-        ftn = list(map(int, next(rep).split()))
-        dx = dxs[i % 3]
-        ctx.case('fftrange', {'n': n}, nontrivial=n > 1, tag=f'par{n % 2}')
+        lo, hi = map(int, M[f'fftrange {n}'].split())
+        cref = int(M[f'centroidref {n}'])
+        ftn = {True: list(map(int, M[f'ftunit {n}'].split())), False: list(map(int, M[f'ftunit0 {n}'].split()))}
+        dx = DXS[i % len(DXS)]
         r = ft.fftrange(n)
         if len(r) != hi - lo or int(r[0]) != lo or not np.array_equal(r, np.arange(lo, hi)):
             ctx.disagree('fftrange', {'n': n}, [int(r[0]), int(r[-1]) + 1], [lo, hi])
-        if len(r) != n or r[n // 2] != 0:
-            ctx.pred_fail('fftrange', {'n': n}, 'no exact zero at n//2')
+        for dt in ('None', 'float32', 'int32', 'precision'):
+            _run_pred(ctx, 'fftrange', {'n': n, 'dtype': dt}, nontrivial=n > 1, tag=f'par{n % 2}')
         m = (n % 7) + 1
-        ctx.case('make_xy_grid', {'shape': [m, n], 'dx': dx}, nontrivial=n > 1)
-        x, y = co.make_xy_grid((m, n), dx=dx)
-        ok = x.shape == (m, n) and y.shape == (m, n) and x[0, n // 2] == 0 and y[m // 2, 0] == 0 \
-            and np.allclose(x[0], np.arange(lo, hi) * dx, rtol=1e-12, atol=0) \
-            and np.allclose(y[:, 0], ft.fftrange(m) * dx, rtol=1e-12, atol=0)
-        if not ok:
-            ctx.pred_fail('make_xy_grid', {'shape': [m, n], 'dx': dx}, 'grid is not fftrange*dx in (y,x) order with zero at n//2')
-        ctx.case('forward_ft_unit', {'n': n, 'dx': dx}, nontrivial=n > 1)
-        u = ft.forward_ft_unit(dx, n)
-        expu = np.array(ftn) / (n * dx)
-        if len(u) != n or not np.allclose(u, expu, rtol=1e-12, atol=0):
-            ctx.disagree('forward_ft_unit', {'n': n, 'dx': dx}, list(u[:3]), list(expu[:3]))
-        if len(u) != n or u[n // 2] != 0 or (n > 1 and not (np.diff(u) > 0).all()):
-            ctx.pred_fail('forward_ft_unit', {'n': n, 'dx': dx}, 'zero frequency not at n//2 or axis not increasing')
-        if cref != n // 2:
-            ctx.notes.append(f'model centroidRef({n}) = {cref}')
-
-    # ---------------- slices pass through the origin sample; centroid of point sources
-    smax = ctx.scale(9, 14)
-    for (m, n) in itertools.product(range(1, smax + 1), repeat=2):
-        dx = dxs[(m + n) % 3]
-        a = _marked((m, n))
-        ctx.case('slices', {'shape': [m, n], 'dx': dx}, nontrivial=m > 1 and n > 1, tag=f'par{m % 2}{n % 2}')
+        gvars = [{'shape': [m, n], 'dx': dx}, {'shape': [m, n], 'dx': dx, 'grid': False}, {'shape': [n, n], 'dx': dx, 'scalar': True},
+                 {'shape': [n, n], 'dx': dx, 'scalar': True, 'grid': False}, {'shape': [m, n], 'diameter': 3.0},
+                 {'shape': [n, m], 'diameter': 3.0, 'dx': 9.0, 'grid': False}, {'shape': [m, n]}]
+        for gv in gvars:
+            if gv.get('scalar') and n > 64:
+                continue
+            _run_pred(ctx, 'make_xy_grid', gv, nontrivial=n > 1, tag=('vec' if gv.get('grid') is False else 'grid'))
+        for shift, call in ((True, 'default'), (True, 'positional'), (False, 'positional'), (False, 'keyword'), (True, 'keyword')):
+            case = {'n': n, 'dx': abs(dx), 'shift': shift, 'call': call}
+            if _run_pred(ctx, 'forward_ft_unit', case, nontrivial=n > 1, tag=f'shift{shift}'):
+                u = _p_ftunit(case, want_out=True)
+                expu = np.array(ftn[shift]) / (n * abs(dx))
+                if len(u) != n or not np.allclose(u, expu, rtol=64 * np.finfo(u.dtype).eps, atol=0):
+                    ctx.disagree('forward_ft_unit', case, list(u[:3]), list(expu[:3]))
+        # the reference index actually used by centroid(): a point source on sample 0 of a 1 x n array reads -ref*dx
+        d = np.zeros((1, n))
+        d[0, 0] = 1.0
         try:
-            s = rd.RichData(a, dx, 1.0).slices(twosided=True)
-            (ux, sx), (uy, sy) = s.x, s.y
-            ok = np.array_equal(sx, a[m // 2, :]) and np.array_equal(sy, a[:, n // 2]) and ux[n // 2] == 0 and uy[m // 2] == 0
-            s1 = rd.RichData(a, dx, 1.0).slices(twosided=False)
-            (vx, tx), (vy, ty) = s1.x, s1.y
-            ok = ok and np.array_equal(tx, a[m // 2, n // 2:]) and np.array_equal(ty, a[m // 2:, n // 2]) \
-                and vx[0] == 0 and vy[0] == 0
+            obs = -psf.centroid(d, dx=1.0, unit='spatial')[1]
+            if abs(obs - cref) > 1e-9:
+                ctx.disagree('centroid_ref', {'n': n}, float(obs), cref)
         except Exception as ex:
-            ok = False
-        if not ok:
-            ctx.pred_fail('slices', {'shape': [m, n], 'dx': dx}, 'slices do not pass through the origin sample')
-        if m * n <= ctx.scale(72, 196):
-            for (p, q) in itertools.product(range(m), range(n)):
-                d = np.zeros((m, n))
-                d[p, q] = 2.0
-                case = {'shape': [m, n], 'pos': [p, q], 'dx': dx}
-                ctx.case('centroid', case, nontrivial=True)
-                try:
-                    cy, cx = C.pure_call(ctx, 'centroid', case, psf.centroid, d, dx=dx, unit='spatial')
-                except Exception as ex:
-                    ctx.pred_fail('centroid', case, f'raised {type(ex).__name__}: {ex}')
-                    continue
-                ey, ex_ = (p - m // 2) * dx, (q - n // 2) * dx
-                if abs(cy - ey) > 1e-9 or abs(cx - ex_) > 1e-9:
-                    ctx.pred_fail('centroid', case, f'point source {p - m // 2, q - n // 2} samples from the origin reported at {cy / dx, cx / dx} samples')
+            ctx.disagree('centroid_ref', {'n': n}, f'raised {type(ex).__name__}: {ex}', cref)
+
+    # ---------------- grid samples against the model (exact: both sides are the correctly rounded product)
+    for (m, n, i, j, dx) in grid_pts:
+        mx, my = (float(Fraction(v)) for v in M[f'grid {m} {n} {i} {j} {rat(dx)}'].split())
+        case = {'shape': [m, n], 'dx': dx, 'at': [i, j]}
+        ctx.case('grid_sample', case, nontrivial=m > 1 and n > 1)
+        try:
+            x, y = co.make_xy_grid((m, n), dx=dx)
+            xv, yv = co.make_xy_grid((m, n), dx=dx, grid=False)
+            got = (float(x[i, j]), float(y[i, j]), float(xv[j]), float(yv[i]))
+        except Exception as ex:
+            ctx.disagree('grid_sample', case, f'raised {type(ex).__name__}: {ex}', [mx, my])
+            continue
+        tol = 4 * np.finfo(x.dtype).eps
+        if any(abs(g - e) > tol * abs(e) for g, e in zip(got, (mx, my, mx, my))):
+            ctx.disagree('grid_sample', case, list(got), [mx, my])
+
+    # ---------------- RichData.x / .y / slices(); centroid of point sources
+    for (m, n) in shapes:
+        dx = DXS[(m + n) % len(DXS)]
+        nt = m > 1 and n > 1
+        for first in ('x', 'y'):
+            _run_pred(ctx, 'richdata_xy', {'shape': [m, n], 'dx': dx, 'first': first}, nontrivial=nt, tag=f'par{m % 2}{n % 2}')
+        other_shape = [n + 1, m + 2]
+        for hist in ('replace_same_after_read', 'replace_other_before_read', 'replace_other_after_read'):
+            _run_pred(ctx, 'richdata_xy', {'shape': [m, n], 'dx': dx, 'history': hist, 'shape2': other_shape,
+                                           'first': 'xy'[(m + n) % 2]}, nontrivial=nt, tag=hist)
+        for two in (True, False, None):
+            _run_pred(ctx, 'slices', {'shape': [m, n], 'dx': dx, 'twosided': two}, nontrivial=nt, tag=f'par{m % 2}{n % 2}')
+        _run_pred(ctx, 'slices', {'shape': [m, n], 'dx': dx, 'history': 'replace_other_after_read', 'shape2': other_shape},
+                  nontrivial=nt, tag='replace_other_after_read')
+        _run_pred(ctx, 'slices', {'shape': [m, n], 'dx': dx, 'user_origin': [(2 * m) // 3, n // 4]}, nontrivial=nt, tag='user_xy')
+    for t, (m, n, p, q, dx) in enumerate(cen_pts):
+        ey, ex = (float(Fraction(v)) for v in M[f'centroid {m} {n} {p} {q} {rat(dx)}'].split())
+        extra = [{}, {'dtype': 'int64'}, {'dtype': 'float32'}, {'layout': 'T'}, {'call': 'positional'}][t % 5]
+        case = {'shape': [m, n], 'pos': [p, q], 'dx': dx, **extra}
+        if _run_pred(ctx, 'centroid', case, tag='spatial'):
+            cy, cx = (float(v) for v in _p_centroid(case, want_out=True))
+            if abs(cy - ey) > 1e-9 * max(1, abs(ey)) or abs(cx - ex) > 1e-9 * max(1, abs(ex)):
+                ctx.disagree('centroid', case, [cy, cx], [ey, ex])
+        _run_pred(ctx, 'centroid', {'shape': [m, n], 'pos': [p, q], 'unit': 'pixels', **extra}, tag='pixels')
 
     # ---------------- FFT-route propagation keeps the origin on n//2 (frequency axis of focus/unfocus)
     for (m, n) in itertools.product(range(1, ctx.scale(12, 24)), repeat=2):
-        case = {'shape': [m, n]}
-        ctx.case('focus_origin', case, nontrivial=m > 1 and n > 1, tag=f'par{m % 2}{n % 2}')
-        try:
-            flat = np.ones((m, n), dtype=complex)
-            f = pr.focus(flat, 1)
-            pk = np.unravel_index(np.argmax(abs(f)), f.shape)
-            d = np.zeros((m, n), dtype=complex)
-            d[m // 2, n // 2] = 1
-            g = pr.focus(d, 1)
-            u = pr.unfocus(d, 1)
-            ok = tuple(int(v) for v in pk) == (m // 2, n // 2) and abs(f[m // 2, n // 2]) > 0.99 * np.sqrt(m * n) \
-                and np.allclose(g, g[0, 0], atol=1e-12) and abs(g[0, 0].imag) < 1e-12 \
-                and np.allclose(u, u[0, 0], atol=1e-12) and abs(u[0, 0].imag) < 1e-12
-        except Exception as ex:
-            ok = False
-        if not ok:
-            ctx.pred_fail('focus_origin', case, 'flat field does not focus onto the origin sample / origin point source is not flat in the far field')
+        _run_pred(ctx, 'focus_origin', {'shape': [m, n]}, nontrivial=m > 1 and n > 1, tag=f'par{m % 2}{n % 2}')
 
     # ---------------- history: grids stay correct after callers edited earlier results in place (no shared arrays)
-    from prysm.conf import config
     for n in range(1, ctx.scale(40, 130)):
-        case = {'n': n}
-        ctx.case('grid_fresh', case, nontrivial=n > 1)
-        try:
-            for dt in (None, config.precision):
-                v = ft.fftrange(n, dtype=dt)
-                v -= 3                      # what the matrix-DFT / chirp-Z basis builders do for a shift
-            ft.mdft.dft2(np.ones((n, (n % 4) + 1)), 1.0, (n, (n % 4) + 1), shift=(1.5, 2.0))
-            ft.czt.czt2(np.ones((n, (n % 4) + 1)), 1.0, (n, (n % 4) + 1), shift=(1.5, 2.0))
-            x, y = co.make_xy_grid((n, n), dx=0.5)
-            x -= 1.0
-            x2, y2 = co.make_xy_grid((n, n), dx=0.5)
-            u = ft.forward_ft_unit(0.5, n)
-            u += 1.0
-            u2 = ft.forward_ft_unit(0.5, n)
-            ok = all(ft.fftrange(n, dtype=dt)[n // 2] == 0 for dt in (None, config.precision)) \
-                and x2[0, n // 2] == 0 and y2[n // 2, 0] == 0 and u2[n // 2] == 0
-        except Exception as ex:
-            ok = False
-        if not ok:
-            ctx.pred_fail('grid_fresh', case, 'a grid lost its zero at n//2 after an earlier result was modified in place / after a shifted transform')
+        _run_pred(ctx, 'grid_fresh', {'n': n}, nontrivial=n > 1)
 
     # ---------------- default padded length ceil(n*Q) and Wavefront delegation
     for n in lens:
-        for q in qs:
-            mlen = int(next(rep))
-            case = {'n': n, 'Q': str(q)}
-            ctx.case('padlen', case, nontrivial=q != 1)
-            a = np.ones((n, (n % 5) + 1))
-            out = ft.pad2d(a, Q=float(q))
-            if out.shape[0] != mlen:
-                ctx.disagree('padlen', case, out.shape[0], mlen)
-            wf = pr.Wavefront(a.astype(complex), 0.5, 1.0)
-            w2 = wf.pad2d(float(q), inplace=False)
-            if w2.data.shape != out.shape or not np.array_equal(w2.data, out):
-                ctx.pred_fail('wavefront_pad', case, 'Wavefront.pad2d differs from fttools.pad2d')
-            w3 = w2.crop(a.shape, inplace=False)
-            if not np.array_equal(w3.data, a):
-                ctx.pred_fail('wavefront_crop', case, 'Wavefront.crop(pad2d(x)) != x')
+        for qi, q in enumerate(qs):
+            mlen = int(M[f'padlen {n} {q.numerator} {q.denominator}'])
+            case = {'n': n, 'Q': str(q), 'call': ('keyword', 'positional', 'default')[qi % 3]}
+            if _run_pred(ctx, 'padlen', case, nontrivial=q != 1):
+                out = ft.pad2d(np.ones((n, (n % 5) + 1)), Q=float(q))
+                if out.shape[0] != mlen:
+                    ctx.disagree('padlen', case, out.shape[0], mlen)
+    wv = [{'Q': 2}, {'Q': 1.5, 'inplace': False}, {'Q': 2, 'inplace': True, 'value': '1.5'}, {'Q': 1, 'out': 'grow', 'inplace': True},
+          {'Q': 1, 'out': 'grow', 'inplace': False, 'mode': 'edge'}, {'Q': 3, 'out': 'grow', 'outform': 'int'},
+          {'Q': 1.25, 'mode': 'wrap', 'inplace': False, 'space': 'psf'}, {'Q': 2, 'out': 'grow', 'value': '3', 'call': 'positional', 'inplace': False},
+          {'Q': 1, 'inplace': False}]
+    wc = [{}, {'inplace': False}, {'inplace': True, 'outform': 'int'}, {'inplace': False, 'outform': 'list', 'space': 'psf'}]
+    for (m, n) in itertools.product(range(1, ctx.scale(9, 14)), repeat=2):
+        for v in wv:
+            v = dict(v)
+            if v.get('out') == 'grow':
+                g = max(m, n) + (m + n) % 3
+                v['out'] = [g, g] if v.get('outform') == 'int' else [m + (n % 3), n + (m % 4)]
+            _run_pred(ctx, 'wavefront_pad', {'in': [m, n], **v}, nontrivial=m > 1 and n > 1, tag=f'inplace{v.get("inplace")}')
+        for v in wc:
+            s = max(1, min(m, n) - (m + n) % 3)
+            out = [s, s] if v.get('outform') == 'int' else [max(1, m - n % 3), max(1, n - m % 4)]
+            _run_pred(ctx, 'wavefront_crop', {'in': [m, n], 'out': out, **v}, nontrivial=m > 1 and n > 1, tag=f'inplace{v.get("inplace")}')
+
+    # ---------------- array centres computed elsewhere with another formula still land on n//2 (odd and even sizes)
+    sites = origin_inventory(C.REPO)
+    new = sorted({s_[:3] for s_ in sites} - set(REVIEWED_SITES))
+    ctx.notes.append(f'origin inventory: {len(sites)} expressions at {len({s_[:3] for s_ in sites})} sites; unreviewed: {new}')
+    if new:
+        print(f'NOTE: C04 origin inventory found sites without an executed predicate: {new}')
+    for (m, n) in ((31, 31), (32, 32), (31, 34), (34, 31), (33, 35)) + (((45, 45), (46, 47)) if ctx.thorough else ()):
+        for what in ('hex', 'keystone', 'shack_hartmann'):
+            _run_pred(ctx, 'foreign_origin', {'what': what, 'shape': [m, n]}, tag=f'{what}/par{m % 2}{n % 2}')
+    for (m, n) in itertools.product(range(1, ctx.scale(10, 18)), repeat=2):
+        for what in ('psd', 'synth'):
+            _run_pred(ctx, 'foreign_origin', {'what': what, 'shape': [m, n]}, nontrivial=m > 1 and n > 1, tag=f'{what}/par{m % 2}{n % 2}')
 
 
-def _pred_pad(n, N, mode='constant', val=0.0):
-    ft = _impl()[0]
-    a = _marked((n, 3))
-    out = ft.pad2d(a, out_shape=(N, 5), mode=mode, value=val)
-    return out.shape == (N, 5) and out[N // 2, 2] == a[n // 2, 1]
+def _np_pad_ok(shp, out_shape, mode):
+    """does NumPy itself accept these pad widths for this mode (reflect/symmetric on tiny axes do not)?"""
+    w = tuple((O // 2 - i // 2, (O - i) - (O // 2 - i // 2)) for i, O in zip(shp, out_shape))
+    if mode == 'constant':
+        return True
+    try:
+        np.pad(np.zeros(shp), w, mode=mode)
+        return True
+    except Exception:
+        return False
+
+
+def _pad_case(ctx, case, w, nontrivial, tag):
+    """predicate + correspondence (block position / surroundings from the model's widths) of one pad2d call"""
+    shp, out_shape = tuple(case['in']), tuple(case['out'])
+    mode = case['mode']
+    if not _np_pad_ok(shp, out_shape, mode):
+        return
+    ctx.case('pad', case, nontrivial=nontrivial, tag=tag)
+    try:
+        out, problem = _p_pad(case, want_out=True)
+    except Exception as ex:   # the model always returns a value here
+        ctx.disagree('pad', case, f'raised {type(ex).__name__}: {ex}', f'widths {w}')
+        ctx.pred_fail('pad', case, f'pad2d raised {type(ex).__name__}: {ex}')
+        return
+    detail = problem or _p_pad_from(case, out)
+    if detail:
+        ctx.pred_fail('pad', case, detail)
+    a, kw = _pad_args(case)
+    if mode == 'constant':
+        exp = np.full(out_shape, kw.get('value', 0), dtype=a.dtype)
+        exp[w[0][0]:w[0][0] + shp[0], w[1][0]:w[1][0] + shp[1]] = a
+    elif mode == 'empty':
+        exp = out.copy()
+        exp[w[0][0]:w[0][0] + shp[0], w[1][0]:w[1][0] + shp[1]] = a
+    else:
+        exp = np.pad(a, w, mode=mode)
+    if not _same(np.asarray(out), exp):
+        where = np.argwhere(out == a[0, 0]) if out.ndim == 2 else []
+        ctx.disagree('pad', case, f'block at {where[:1].tolist() if len(where) else out.shape}', f'widths {w}')
+
+
+def _p_pad_from(case, out):
+    """the pad predicate on an already computed output"""
+    a, _ = _pad_args(case)
+    (m, n), (M, N) = case['in'], case['out']
+    if out.shape != (M, N):
+        return f'padded shape {out.shape}, requested {(M, N)}'
+    lo0, lo1 = M // 2 - m // 2, N // 2 - n // 2
+    if out[M // 2, N // 2] != a[m // 2, n // 2]:
+        return (f'origin sample {a[m // 2, n // 2]} of the input is not at the origin {(M // 2, N // 2)} of the padded array '
+                f'(found {out[M // 2, N // 2]})')
+    if not np.array_equal(out[lo0:lo0 + m, lo1:lo1 + n], a):
+        return 'the input block is not reproduced around the origin of the padded array'
+    if out.dtype != a.dtype:
+        return f'dtype changed from {a.dtype} to {out.dtype}'
+    return None
+
+
+def _crop_case(ctx, case, lo, nontrivial, tag):
+    ctx.case('crop', case, nontrivial=nontrivial, tag=tag)
+    try:
+        out, problem = _p_crop(case, want_out=True)
+        detail = problem or _p_crop(case)
+    except Exception as ex:
+        ctx.disagree('crop', case, f'raised {type(ex).__name__}: {ex}', f'offsets {lo}')
+        ctx.pred_fail('crop', case, f'crop_center raised {type(ex).__name__}: {ex}')
+        return
+    if detail:
+        ctx.pred_fail('crop', case, detail)
+    a = _arr(case['in'], case.get('dtype', 'float64'), case.get('layout', 'C'))
+    M_, N_ = case['out']
+    exp = a[lo[0]:lo[0] + M_, lo[1]:lo[1] + N_]
+    if not _same(np.asarray(out), exp):
+        ctx.disagree('crop', case, f'first sample {out.flat[0] if out.size else None}', f'offsets {lo}')
+
+
+# =================================================================================================
+# search / replay
+# =================================================================================================
+def _try(item, case):
+    try:
+        return PRED[item](case)
+    except Exception as ex:
+        return f'raised {type(ex).__name__}: {ex}'
 
 
 def search(ctx, hints):
-    """property predicates on the real code, small scope first (all (n,N) <= 24), smallest failing input wins"""
-    ft, co, psf, pr, rd = _impl()
+    """property predicates on the real code, small scope first; the smallest failing input wins"""
+    def hit(item, case, detail):
+        return {'item': item, 'input': case, 'detail': detail}
     for total in range(2, 49):
         for n in range(1, total):
             N = total - n
-            if n <= N:
-                for mode, val in (('constant', 0.0), ('edge', 0.0)):
-                    try:
-                        ok = _pred_pad(n, N, mode, val)
-                    except Exception:
-                        ok = False
-                    if not ok:
-                        return {'item': 'pad', 'input': {'op': 'pad2d', 'in': [n, 3], 'out': [N, 5], 'mode': mode, 'value': repr(val)},
-                                'detail': 'origin sample of the input is not at the origin of the padded array'}
-                a = _marked((N, 5))
-                try:
-                    out = ft.crop_center(a, (n, 3))
-                    ok = out.shape == (n, 3) and out[n // 2, 1] == a[N // 2, 2]
-                    b = _marked((n, 3))
-                    ok2 = np.array_equal(ft.crop_center(ft.pad2d(b, out_shape=(N, 5)), (n, 3)), b)
-                except Exception:
-                    ok = ok2 = False
-                if not ok:
-                    return {'item': 'crop', 'input': {'op': 'crop_center', 'in': [N, 5], 'out': [n, 3]},
-                            'detail': 'origin sample of the input is not at the origin of the cropped array'}
-                if not ok2:
-                    return {'item': 'crop_pad', 'input': {'in': [n, 3], 'mid': [N, 5], 'mode': 'constant', 'value': '0'},
-                            'detail': 'crop_center(pad2d(x)) != x'}
+            if n > N:
+                continue
+            for mode, val in (('constant', '0'), ('edge', None)):
+                for form, out in (('tuple', [N, N + 2]), ('int', [N, N])):
+                    case = {'in': [n, n + 2] if form == 'tuple' else [n, max(1, n - 1)], 'out': out, 'mode': mode, 'value': val, 'outform': form}
+                    d = _try('pad', case)
+                    if d:
+                        return hit('pad', case, d)
+            for form, out in (('tuple', [n, max(1, n - 1)]), ('int', [n, n])):
+                case = {'in': [N, N + 1], 'out': out, 'outform': form}
+                d = _try('crop', case)
+                if d:
+                    return hit('crop', case, d)
+            case = {'in': [n, 3], 'mid': [N, 5], 'mode': 'constant', 'value': '0'}
+            d = _try('crop_pad', case)
+            if d:
+                return hit('crop_pad', case, d)
     for n in range(1, 65):
-        r = ft.fftrange(n)
-        if len(r) != n or r[n // 2] != 0:
-            return {'item': 'fftrange', 'input': {'n': n}, 'detail': 'no exact zero at n//2'}
-        u = ft.forward_ft_unit(0.5, n)
-        if len(u) != n or u[n // 2] != 0:
-            return {'item': 'forward_ft_unit', 'input': {'n': n, 'dx': 0.5}, 'detail': 'zero frequency not at n//2'}
-        x, y = co.make_xy_grid((n, n + 1), dx=0.5)
-        if x[0, (n + 1) // 2] != 0 or y[n // 2, 0] != 0:
-            return {'item': 'make_xy_grid', 'input': {'shape': [n, n + 1], 'dx': 0.5}, 'detail': 'no zero at n//2'}
+        for item, cases in (('fftrange', [{'n': n}]),
+                            ('forward_ft_unit', [{'n': n, 'dx': 0.5, 'shift': s} for s in (True, False)]),
+                            ('make_xy_grid', [{'shape': [n, n + 1], 'dx': 0.5}, {'shape': [n + 1, n], 'dx': 0.5, 'grid': False},
+                                              {'shape': [n, n], 'dx': 0.5, 'scalar': True}, {'shape': [n, n + 1], 'diameter': 2.0}]),
+                            ('grid_fresh', [{'n': n}] if n < 24 else [])):
+            for case in cases:
+                d = _try(item, case)
+                if d:
+                    return hit(item, case, d)
     for (m, n) in itertools.product(range(1, 10), repeat=2):
-        a = _marked((m, n))
-        try:
-            s = rd.RichData(a, 1.0, 1.0).slices(twosided=True)
-            ok = np.array_equal(s.x[1], a[m // 2, :]) and np.array_equal(s.y[1], a[:, n // 2])
-        except Exception:
-            ok = False
-        if not ok:
-            return {'item': 'slices', 'input': {'shape': [m, n], 'dx': 1.0}, 'detail': 'slices miss the origin sample'}
-        try:
-            f = pr.focus(np.ones((m, n), dtype=complex), 1)
-            ok = tuple(int(v) for v in np.unravel_index(np.argmax(abs(f)), f.shape)) == (m // 2, n // 2)
-        except Exception:
-            ok = False
-        if not ok:
-            return {'item': 'focus_origin', 'input': {'shape': [m, n]}, 'detail': 'flat field does not focus onto the origin sample'}
-        d = np.zeros((m, n))
-        d[m // 2, n // 2] = 1
-        cy, cx = psf.centroid(d, dx=1.0, unit='spatial')
-        if abs(cy) > 1e-9 or abs(cx) > 1e-9:
-            return {'item': 'centroid', 'input': {'shape': [m, n], 'pos': [m // 2, n // 2], 'dx': 1.0},
-                    'detail': f'centred point source reported at {cy, cx}'}
+        cases = [('richdata_xy', {'shape': [m, n], 'dx': 1.0, 'first': 'x'}), ('richdata_xy', {'shape': [m, n], 'dx': 1.0, 'first': 'y'}),
+                 ('slices', {'shape': [m, n], 'dx': 1.0, 'twosided': True}), ('slices', {'shape': [m, n], 'dx': 1.0, 'twosided': False}),
+                 ('focus_origin', {'shape': [m, n]}),
+                 ('centroid', {'shape': [m, n], 'pos': [m // 2, n // 2], 'dx': 1.0}),
+                 ('centroid', {'shape': [m, n], 'pos': [m - 1, 0], 'dx': 0.5}),
+                 ('centroid', {'shape': [m, n], 'pos': [m - 1, 0], 'unit': 'pixels'}),
+                 ('wavefront_pad', {'in': [m, n], 'Q': 2}), ('wavefront_pad', {'in': [m, n], 'Q': 1, 'out': [m + 1, n + 2], 'inplace': False}),
+                 ('wavefront_crop', {'in': [m, n], 'out': [max(1, m - 1), max(1, n - 2)]}),
+                 ('foreign_origin', {'what': 'psd', 'shape': [m, n]}), ('foreign_origin', {'what': 'synth', 'shape': [m, n]})]
+        for item, case in cases:
+            d = _try(item, case)
+            if d:
+                return hit(item, case, d)
     return None
 
 
 def replay(inp):
-    ft, co, psf, pr, rd = _impl()
+    C.import_prysm()
     item, c = inp['item'], inp['input']
     print('replaying', item, c)
-    if item == 'pad':
-        val = float(c.get('value', '0'))
-        a = _marked(tuple(c['in']))
-        try:
-            out = ft.pad2d(a, out_shape=tuple(c['out']), mode=c['mode'], value=val)
-        except Exception as ex:
-            print('raised', ex)
-            return True
-        o_in = tuple(s // 2 for s in c['in'])
-        o_out = tuple(s // 2 for s in c['out'])
-        print(f'origin sample value {a[o_in]}; padded[{o_out}] = {out[o_out]}')
-        return not (out[o_out] == a[o_in])
-    if item == 'crop':
-        a = _marked(tuple(c['in']))
-        out = ft.crop_center(a, tuple(c['out']))
-        o_in = tuple(s // 2 for s in c['in'])
-        o_out = tuple(s // 2 for s in c['out'])
-        print(f'origin sample value {a[o_in]}; cropped[{o_out}] = {out[o_out] if out.shape == tuple(c["out"]) else out.shape}')
-        return not (out.shape == tuple(c['out']) and out[o_out] == a[o_in])
-    if item == 'crop_pad':
-        b = _marked(tuple(c['in']))
-        rt = ft.crop_center(ft.pad2d(b, out_shape=tuple(c['mid']), mode=c['mode'], value=float(c.get('value', '0'))), tuple(c['in']))
-        print('round trip equal:', np.array_equal(rt, b))
-        return not np.array_equal(rt, b)
-    if item == 'fftrange':
-        r = ft.fftrange(c['n'])
-        print(r)
-        return not (len(r) == c['n'] and r[c['n'] // 2] == 0)
-    if item == 'forward_ft_unit':
-        u = ft.forward_ft_unit(c['dx'], c['n'])
-        print(u)
-        return not (len(u) == c['n'] and u[c['n'] // 2] == 0 and (np.diff(u) > 0).all())
-    if item == 'make_xy_grid':
-        m, n = c['shape']
-        x, y = co.make_xy_grid((m, n), dx=c['dx'])
-        print(x[0], y[:, 0])
-        return not (x[0, n // 2] == 0 and y[m // 2, 0] == 0)
-    if item == 'centroid':
-        m, n = c['shape']
-        d = np.zeros((m, n))
-        d[tuple(c['pos'])] = 2.0
-        cy, cx = psf.centroid(d, dx=c['dx'], unit='spatial')
-        ey, ex = (c['pos'][0] - m // 2) * c['dx'], (c['pos'][1] - n // 2) * c['dx']
-        print(f'centroid {cy, cx}; expected {ey, ex}')
-        return abs(cy - ey) > 1e-9 or abs(cx - ex) > 1e-9
-    if item == 'slices':
-        m, n = c['shape']
-        a = _marked((m, n))
-        s = rd.RichData(a, c['dx'], 1.0).slices(twosided=True)
-        return not (np.array_equal(s.x[1], a[m // 2, :]) and np.array_equal(s.y[1], a[:, n // 2]))
-    if item == 'focus_origin':
-        m, n = c['shape']
-        f = pr.focus(np.ones((m, n), dtype=complex), 1)
-        pk = tuple(int(v) for v in np.unravel_index(np.argmax(abs(f)), f.shape))
-        d = np.zeros((m, n), dtype=complex)
-        d[m // 2, n // 2] = 1
-        g = pr.focus(d, 1)
-        print(f'peak of focus(flat) at {pk}, origin sample is {(m // 2, n // 2)}; far field of origin point source flat: {np.allclose(g, g[0, 0])}')
-        return pk != (m // 2, n // 2) or not np.allclose(g, g[0, 0], atol=1e-12)
-    if item == 'grid_fresh':
-        n = c['n']
-        v = ft.fftrange(n)
-        v -= 3
-        ft.mdft.dft2(np.ones((n, 2)), 1.0, (n, 2), shift=(1.5, 2.0))
-        r = ft.fftrange(n)
-        x, y = co.make_xy_grid((n, n), dx=0.5)
-        print('fftrange after in-place edit of an earlier result:', r)
-        return not (r[n // 2] == 0 and x[0, n // 2] == 0 and y[n // 2, 0] == 0)
-    print('no replay routine for item', item)
-    return False
+    if item not in PRED:
+        print('no replay routine for item', item)
+        return False
+    detail = _try(item, c)
+    if item == 'pad' and detail is None and _np_pad_ok(tuple(c['in']), tuple(c['out']), c['mode']):
+        # correspondence-only finding: surroundings of the block differ from np.pad with the origin-preserving widths
+        a, kw = _pad_args(c)
+        w = tuple((O // 2 - i // 2, (O - i) - (O // 2 - i // 2)) for i, O in zip(c['in'], c['out']))
+        out = PRED['pad'](c, want_out=True)[0]
+        if c['mode'] == 'constant':
+            exp = np.full(tuple(c['out']), kw.get('value', 0), dtype=a.dtype)
+            exp[w[0][0]:w[0][0] + a.shape[0], w[1][0]:w[1][0] + a.shape[1]] = a
+        else:
+            exp = np.pad(a, w, mode=c['mode'])
+        if c['mode'] != 'empty' and not _same(np.asarray(out), exp):
+            detail = f'padded array differs from the input surrounded by widths {w} in mode {c["mode"]}'
+    print('predicate:', 'holds' if detail is None else detail)
+    return detail is not None
 
 
 MANIFEST_ENTRY = {
-    'technique': 'Lean 4 proof (omega over translator-generated index arithmetic) + exhaustive small-scope correspondence',
-    'text': ('Machine-checked theorems, for every axis length and target length (no bound): fftrange has its exact zero at n//2 '
-             'and is the unique argmin of |x|; pad2d (both branches) and crop_center move the origin sample onto the origin of '
-             'the new array and stay in bounds; crop undoes pad sample for sample; the centroid reference is n//2 so a point '
-             'source k samples away reads k*dx; fftshift(fftfreq) has its zero at n//2; default padded length is ceil(n*Q). '
-             'The offset/slice/reference expressions the theorems speak about are regenerated from the current prysm source '
-             'by the translator on every run, so an edit to the source changes the definitions the kernel re-checks. The '
-             'NumPy plumbing around them (slicing, np.pad, meshgrid, center_of_mass) is covered by an exhaustive '
-             'integer-exact correspondence run of the Lean model against the real functions for all (n,N) up to the tier bound, '
-             'every parity pair, per-axis different targets, six pad modes/fill values.'),
-    'note': ('Trusted: Lean kernel + propext/Classical.choice/Quot.sound; the ast->Lean translator for the integer-expression '
-             'subset (validated by executing model vs code on the exhaustive small domain each run); NumPy slicing/np.pad and '
-             'scipy.ndimage.center_of_mass semantics; dx scaling is floating point (compared at 1e-12 relative).'),
+    'technique': 'Lean 4 proof (omega / ring over translator-generated terms) + exhaustive small-scope correspondence',
+    'text': ('PROVED by the Lean kernel for every axis length, target length, spacing and position (no bound), over terms that the '
+             'translator re-reads from the current prysm source on every run (an edit to the source changes the definitions the '
+             'kernel re-checks; statements are semantic and proofs end in omega / ring, so equivalent rewrites still pass): '
+             '(1) fftrange(n) has n samples, index n//2 lies in [0, n) and holds the only zero (unique argmin of |x|); '
+             '(2) make_xy_grid, read as a whole (generator element, (y, x) unpack order, meshgrid argument / result order, '
+             'grid=False route, scalar shape, diameter=): x[i,j] = (j - n//2) dx whatever i and m, y[i,j] = (i - m//2) dx whatever '
+             'j and n, zero exactly on column n//2 / row m//2 (and only there when dx != 0); '
+             '(3) forward_ft_unit, composed of the constants of NumPy\'s own fftfreq / fftshift source (also translated): sample i '
+             'is i - n//2 (shift=True), zero at index 0 and FFT order for shift=False; the shift pair of propagation.focus / '
+             'unfocus brings sample n//2 to FFT index 0 and the zero-frequency bin back to n//2 for odd and even n; '
+             '(4) pad2d (np.pad widths and constant-mode slice) and crop_center: the origin sample lands on the origin of the new '
+             'array, the block stays in bounds, widths are non-negative, an integer out_shape means every axis, crop undoes pad '
+             'sample for sample in 1-D and in 2-D with per-axis different targets, default length is ceil(n Q); '
+             '(5) RichData.x / .y hand out the first / second array of make_xy_grid(data.shape, dx), slices() passes row 0 of x / '
+             'column 0 of y, and for EVERY function meeting the specification of np.argmin(abs(v)) and every dx != 0 the centre '
+             'found by Slices is (m//2, n//2): two-sided slices are row m//2 / column n//2, one-sided ones start at the origin '
+             'sample, its coordinate is exactly 0; '
+             '(6) centroid subtracts n//2 per axis in zip order and scales by dx, unit=pixels returns the centre of mass; the '
+             'centre of mass (first moment / total, as 2-D sums) of a point source at (p, q) is (p, q), so it reads '
+             '((p - m//2) dx, (q - n//2) dx); '
+             '(7) Wavefront.pad2d / crop bind every argument of fttools.pad2d / crop_center to its namesake and store / return the '
+             'result (three-valued AST fact: unrecognised spelling degrades the tie, a wrong binding fails). '
+             'COMPARED ONLY (bounded enumeration on the real functions, integer-exact where integers are involved): NumPy plumbing '
+             '(slicing, 12 np.pad modes and fill values, meshgrid, roll, argmin and center_of_mass in floating point) for all (n, N) '
+             'up to 40 (quick) / 128 (thorough); integer / list / tuple out_shape, Q = 1 with out_shape, int64 / float32 / '
+             'complex128 data, transposed and strided inputs up to 10 / 20; grids, frequency axes up to 130 / 600; RichData.x / .y '
+             '/ slices and centroids (spatial and pixels) up to 9x9 / 14x14; Wavefront return objects (identity, dx, wavelength, '
+             'space); the FFT itself on the focus / unfocus route up to 11x11 / 23x23; requests that shrink an axis through pad2d raise ValueError '
+             '(all shapes up to 5 / 7); re-requested grids after in-place edits of earlier results; array centres written as '
+             'ceil(n/2) in segmented.py / x/shack_hartmann.py and the shift pairs of interferogram.psd / '
+             'synthesize_surface_from_psd still centre on n//2 for odd sizes (7 shapes / up to 9x9). '
+             'NOT COVERED: dx = 0 (degenerate all-zero grid: Slices then takes index 0); Slices.azavg / exact_x / exact_y; '
+             'psf.autocrop; non-NumPy backends; config.precision = float32 is tolerated by the comparisons but not swept.'),
+    'note': ('Trusted: Lean kernel + propext/Classical.choice/Quot.sound; the ast->Lean translator (tools/gen_c04.py: its reading '
+             'of comprehensions, tuple unpacking, np.meshgrid(xy) and subscript forms is validated by executing model vs code on '
+             'the exhaustive small domain each run); NumPy slicing / np.pad / np.roll / np.argmin and scipy.ndimage.center_of_mass '
+             'semantics; dx scaling is one floating-point product per sample (compared at 4 eps). Known finding '
+             'richdata-stale-xy: RichData caches x / y at first read and keeps them when .data is later replaced by an array of '
+             'another shape (filtered exactly; not repaired because Interferogram.crop reads the stale grid on purpose).'),
 }
